@@ -140,17 +140,27 @@ static void loadS(SlaveSymbolString* ss, const Bytes& d) {
   for (unsigned char c : d) ss->push_back(c);
 }
 
-// encode the token list (non-ignored fields in definition order, master part first then slave)
-static Enc encode(const DataField* f, const Seq& seq, const vector<string>& vals) {
-  Enc e;
-  string in;
-  bool first = true;
+static Enc encodeInput(const DataField* f, const string& in);
+// the token list (non-ignored fields in definition order, master part first then slave)
+static vector<string> tokensOf(const Seq& seq, const vector<string>& vals) {
+  vector<string> t;
   for (char part : {'m', 's'}) for (size_t i = 0; i < seq.size(); i++) {
     if (seq[i].part != part || g_alpha[seq[i].t].ign) continue;
-    if (!first) in += UI_FIELD_SEPARATOR;
-    in += vals[i];
-    first = false;
+    t.push_back(vals[i]);
   }
+  return t;
+}
+static string joinTokens(const vector<string>& t, size_t count) {
+  string in;
+  for (size_t i = 0; i < count && i < t.size(); i++) { if (i) in += UI_FIELD_SEPARATOR; in += t[i]; }
+  return in;
+}
+static Enc encode(const DataField* f, const Seq& seq, const vector<string>& vals) {
+  vector<string> t = tokensOf(seq, vals);
+  return encodeInput(f, joinTokens(t, t.size()));
+}
+static Enc encodeInput(const DataField* f, const string& in) {
+  Enc e;
   MasterSymbolString ms; loadM(&ms, {});
   SlaveSymbolString ss; loadS(&ss, {});
   std::istringstream is(in);
@@ -276,7 +286,32 @@ class SeqCheck {
     checkBarriers();
     checkSelection();
     checkEncodings();
+    checkOmitted();
     return true;
+  }
+
+  // (7) an input that ends before every field got a value: the omitted trailing values are empty values - whatever an
+  // empty value means for the type (padding, replacement, or a refusal), it must be the same as for the explicitly
+  // empty tokens, and in particular nothing of the values given before may show up in the omitted fields
+  void checkOmitted() {
+    for (int u = 0; u < nv; u++) {
+      vector<int> c(n, u);
+      vector<string> t = tokensOf(seq, valuesFor(c));
+      for (size_t drop = 1; drop <= 2 && drop < t.size(); drop++) {
+        size_t keep = t.size() - drop;
+        string shortIn = joinTokens(t, keep);
+        string fullIn = shortIn;
+        for (size_t k = 0; k < drop; k++) fullIn += UI_FIELD_SEPARATOR;
+        Enc a = encodeInput(whole, shortIn), b = encodeInput(whole, fullIn);
+        R.evaluations++;
+        bool same = (a.res == RESULT_OK) == (b.res == RESULT_OK) && (a.res != RESULT_OK || (a.m == b.m && a.s == b.s));
+        if (!same) {
+          fail("omitted-value-differs-from-empty", "input '" + shortIn + "' -> " + getResultCode(a.res) + " m=" + hx(a.m) + " s=" + hx(a.s) +
+               ", input '" + fullIn + "' -> " + getResultCode(b.res) + " m=" + hx(b.m) + " s=" + hx(b.s));
+          return;
+        }
+      }
+    }
   }
 
   // (6) addressing a single field: the counts per part / per name, the name and field by index, and the decode
